@@ -359,9 +359,10 @@ func (m *c18mon) roundTrip(cn uint64) {
 }
 
 // case layout
-//   [0, nB)                 row i of the exhaustive B x B table (+ unary on B[i], floats x B[i])
-//   [nB, nB+nZ)             products congruent to 0 mod 2^64
-//   then nR random chunks, nF float chunks, nP parse chunks
+//
+//	[0, nB)                 row i of the exhaustive B x B table (+ unary on B[i], floats x B[i])
+//	[nB, nB+nZ)             products congruent to 0 mod 2^64
+//	then nR random chunks, nF float chunks, nP parse chunks
 func c18Layout(tier string) (nB, nZ, nR, nF, nP int) {
 	nB = len(c18B)
 	nZ = 64
